@@ -250,7 +250,11 @@ func execC16(x *Ctx, sc *wire.Scenario) *wire.Result {
 		// last character, so put-before no longer inserts "at the same point" (as in vi itself)
 		viAtEnd := xx.Vi && (b0Single.Pos >= len([]rune(b0Single.Line))-1 || b1Last.Pos != b0Single.Pos)
 		if !viAtEnd && y1.Line != b0Single.Line {
-			return violation(res, "MISMATCH", "C16.kill-then-yank-restores", "kill-yank-not-identity:"+sc.Script[xx.Kills[0]].Cmd,
+			sig := "kill-yank-not-identity:" + sc.Script[xx.Kills[0]].Cmd
+			if strings.HasSuffix(lastR, "\n") {
+				sig += ":killed-text-ends-with-a-newline" // put then works line-wise
+			}
+			return violation(res, "MISMATCH", "C16.kill-then-yank-restores", sig,
 				fmt.Sprintf("%s then yank at the same point: %q (cursor %d) -> %q -> %q", sc.Script[xx.Kills[0]].Cmd, b0Single.Line, b0Single.Pos, b1Last.Line, y1.Line))
 		}
 	}
@@ -441,6 +445,9 @@ func genC18(g *Gen, tier string, idx int) *wire.Scenario {
 			default:
 				if g.P(15) {
 					x.K = append(x.K, tok(fmt.Sprint(g.Range(2, 3)), "vi-arg-digit"))
+					if k == "0" {
+						k = "$" // a 0 here would continue the count
+					}
 				}
 				x.K = append(x.K, tok(k, "vi-cmd"))
 			}
@@ -489,6 +496,20 @@ func execC18(x *Ctx, sc *wire.Scenario) *wire.Result {
 	var xx c18X
 	jsonInto(sc.X, &xx)
 	setup := sc.Script[:xx.Setup]
+	// A script that ends in a pending state (a numeric argument not yet used, a command still
+	// waiting for its argument key) is not comparable: when it is recorded, the key that ends
+	// the recording takes that argument, when it is typed twice its own first key does.
+	if n := len(xx.K); n > 0 {
+		last := xx.K[n-1].Cmd
+		if n > 1 && xx.Vi && string(xx.K[n-1].B) == "0" && xx.K[n-2].Cmd == "vi-arg-digit" {
+			last = "vi-arg-digit" // in vi a 0 after a digit continues the count
+		}
+		switch last {
+		case "digit-argument", "vi-arg-digit", "quoted-insert":
+			res.Counters["skipped:K_ends_in_pending_state"]++
+			return res
+		}
+	}
 	// A: K K
 	a := append(append(append([]wire.Token(nil), setup...), xx.K...), xx.K...)
 	// B: record K, replay
